@@ -708,7 +708,9 @@ class Parser:
         self.expect(Ellip)
 
         lead = self.peek()
-        if lead.__class__ is Name and lead.value != "on":
+        # Only a Name token can be the ``on`` keyword (a string "on" cannot).
+        has_type_condition = lead.__class__ is Name and lead.value == "on"
+        if lead.__class__ is Name and not has_type_condition:
             return _ast.FragmentSpread(
                 name=self.parse_fragment_name(),
                 directives=self.parse_directives(False),
@@ -719,7 +721,7 @@ class Parser:
         return _ast.InlineFragment(
             type_condition=(
                 cast(_ast.NamedType, self.advance() and self.parse_named_type())
-                if lead.value == "on"
+                if has_type_condition
                 else None
             ),
             directives=self.parse_directives(False),
